@@ -19,6 +19,9 @@ RUN_TIMEOUT_S = int(os.environ.get("VERIF_RUN_TIMEOUT", "300"))
 STOP_ON_FIRST = os.environ.get("VERIF_STOP_ON_FIRST") == "1"
 
 
+_KNOWN = findings_mod.load(os.path.join(VERIF_DIR, "known_findings.json"))
+
+
 class Unbuildable(Refused):
     """The configuration was accepted but could not be elaborated/simulated. That is C19's
     business; every other check counts it and moves on (independence between properties)."""
@@ -183,8 +186,10 @@ def _run_tasks_forked(tasks, jobs):
                 proc, idx = live.pop(conn)
                 try:
                     done[idx] = conn.recv()
-                    if STOP_ON_FIRST and any(r_.get("status") == "violation"
-                                             for r_ in done[idx]["runs"]):
+                    if STOP_ON_FIRST and any(
+                            r_.get("status") == "violation" and not findings_mod.match(
+                                _KNOWN, r_["violation"]["property"], r_["violation"]["key"])
+                            for r_ in done[idx]["runs"]):
                         pending.clear()      # regression harness only: one detection is enough
                 except EOFError as e:
                     raise HarnessError(f"worker for runs {tasks[idx][3][0]}..{tasks[idx][3][-1]} "
